@@ -240,3 +240,125 @@ func c13StructuredDefaults(c *core.Ctx) {
 	}
 	_ = openapi3.ParameterInQuery
 }
+
+// c13SharedParameterSchema: several parameters of one operation refer to ONE component schema whose default is an object (or a
+// list) and differ in location, style and explode; later the caller edits the component's default in the kept document. Every
+// absent parameter must read back from the forwarded request as the default of that moment, in its own serialization, and the
+// forwarded request validates again unchanged.
+func c13SharedParameterSchema(c *core.Ctx) {
+	for _, kind := range []string{"object", "array"} {
+		var comp gen.S
+		var d1, d2 any
+		if kind == "object" {
+			d1, d2 = gen.S{"from": 1.0, "to": 9.0}, gen.S{"from": 2.0, "to": 3.0}
+			comp = gen.S{"type": "object", "properties": gen.S{"from": gen.S{"type": "integer"}, "to": gen.S{"type": "integer"}}, "default": d1}
+		} else {
+			d1, d2 = gen.Arr(4.0, 5.0), gen.Arr(6.0)
+			comp = gen.S{"type": "array", "items": gen.S{"type": "integer"}, "default": d1}
+		}
+		ref := gen.S{"$ref": "#/components/schemas/Shared"}
+		params := gen.Arr(
+			gen.S{"name": "X-A", "in": "header", "explode": true, "schema": ref},
+			gen.S{"name": "X-B", "in": "header", "explode": false, "schema": ref},
+			gen.S{"name": "X-C", "in": "header", "schema": ref},
+			gen.S{"name": "ca", "in": "cookie", "explode": false, "schema": ref},
+			gen.S{"name": "qa", "in": "query", "explode": true, "schema": ref},
+			gen.S{"name": "qb", "in": "query", "explode": false, "schema": ref},
+		)
+		for _, order := range []string{"declared", "reversed"} {
+			ps := gen.CloneValue(params).([]any)
+			if order == "reversed" {
+				for i, j := 0, len(ps)-1; i < j; i, j = i+1, j-1 {
+					ps[i], ps[j] = ps[j], ps[i]
+				}
+			}
+			doc := baseDoc(gen.S{"/s": gen.S{"get": gen.S{"parameters": ps, "responses": okResponses()}}})
+			doc["components"] = gen.S{"schemas": gen.S{"Shared": gen.CloneValue(comp)}}
+			d, err := loadDoc(doc)
+			if err != nil {
+				c.Note("shared parameter schema: doc rejected: %v", err)
+				continue
+			}
+			router, err := newGorilla(d)
+			if err != nil {
+				continue
+			}
+			kps := d.Paths.Find("/s").Get.Parameters
+			want := d1
+			for step := 0; step < 3; step++ {
+				if step == 2 {
+					// the caller edits the kept document: the component's default changes for every parameter that refers to it
+					d.Components.Schemas["Shared"].Value.Default = gen.CloneValue(d2)
+					want = d2
+				}
+				for _, multi := range []bool{false, true} {
+					o := openapi3filter.Options{MultiError: multi}
+					desc := fmt.Sprintf("shared parameter schema: %s default, parameters %s, step %d, MultiError=%v", kind, order, step, multi)
+					c.Begin(desc)
+					req, _ := http.NewRequest("GET", "http://h.t/s", nil)
+					in, err := reqInput(router, req, &o)
+					if err != nil {
+						continue
+					}
+					var verr error
+					c.Eval()
+					if pi := core.Guard(func() { verr = openapi3filter.ValidateRequest(bgCtx, in) }); pi != nil {
+						c.Violate(core.PanicFeatures(pi), c13Witness{Doc: desc, Request: req.URL.String()}, pi.Stack)
+						continue
+					}
+					c.Distinct(desc)
+					c.Cover("structured_defaults", "shared-component-"+kind)
+					after := req.URL.RawQuery + " | " + fmt.Sprint(req.Header)
+					feat := func(k string) map[string]string {
+						return map[string]string{"kind": k, "param": "shared-component-" + kind, "options": fmt.Sprintf("multi=%v,skip=false", multi), "auth": "none", "accepted": "true"}
+					}
+					wit := func(got, want string) c13Witness {
+						return c13Witness{Doc: desc, Request: "GET " + req.URL.String() + " " + fmt.Sprint(req.Header), Got: core.Truncate(got, 300), Want: core.Truncate(want, 300)}
+					}
+					if verr != nil {
+						c.Violate(feat("absent_defaulted_parameter_rejected"), wit(verr.Error(), "nil"), desc+"\n"+verr.Error())
+						continue
+					}
+					bad := false
+					for _, kp := range kps {
+						in2, err := reqInput(router, req, &o)
+						if err != nil {
+							continue
+						}
+						var got any
+						var derr error
+						core.Guard(func() { got, _, derr = openapi3filter.VerifDecodeStyledParameter(kp.Value, in2) })
+						if derr != nil || !refeval.JSONEqual(normKin(got), want) {
+							f := feat("forwarded_default_differs")
+							f["structured"] = kind
+							c.Violate(f, wit(fmt.Sprintf("%s=%s err=%v", kp.Value.Name, gen.Canon(normKin(got)), derr), gen.Canon(want)),
+								fmt.Sprintf("%s\nthe absent parameter %s (%s) read back from the forwarded request: %s (err %v); the default: %s\nforwarded: %s", desc, kp.Value.Name, kp.Value.In, gen.Canon(normKin(got)), derr, gen.Canon(want), after))
+							bad = true
+							break
+						}
+					}
+					if bad {
+						continue
+					}
+					in3, err := reqInput(router, req, &o)
+					if err != nil {
+						continue
+					}
+					var verr2 error
+					if pi := core.Guard(func() { verr2 = openapi3filter.ValidateRequest(bgCtx, in3) }); pi != nil {
+						c.Violate(core.PanicFeatures(pi), c13Witness{Doc: desc, Request: req.URL.String()}, pi.Stack)
+						continue
+					}
+					again := req.URL.RawQuery + " | " + fmt.Sprint(req.Header)
+					if verr2 != nil {
+						f := feat("forwarded_request_fails_revalidation")
+						f["part"] = "structured default"
+						c.Violate(f, wit(verr2.Error(), "nil"), desc+"\nforwarded: "+after)
+					} else if again != after {
+						c.Violate(feat("second_validation_changes_request"), wit(again, after), desc)
+					}
+				}
+			}
+		}
+	}
+}
